@@ -3,6 +3,7 @@ import ZeepVerif.Driver.Gen
 import ZeepVerif.Driver.HttpDrv
 import ZeepVerif.Driver.YaDrv
 import ZeepVerif.Driver.ReadDrv
+import ZeepVerif.Driver.DocDump
 
 def main (args : List String) : IO UInt32 := do
   match args with
@@ -12,6 +13,7 @@ def main (args : List String) : IO UInt32 := do
   | ["shapes", dump] => ZeepVerif.Driver.Gen.shapes dump
   | ["progof", dump, start] => ZeepVerif.Driver.YaDrv.progofMain dump start
   | ["plainfile"] => ZeepVerif.Driver.ReadDrv.main
+  | ["docdump"] => ZeepVerif.Driver.DocDump.main
   | ["ya"] => ZeepVerif.Driver.YaDrv.main; return 0
   | ["http"] => ZeepVerif.Driver.HttpDrv.main; return 0
   | _ => IO.eprintln "usage: zvdrv c06 < lines"; return 2
